@@ -66,8 +66,8 @@ class Backend:
             return ("cxx", g["text"]) if g and g.get("status") == "ok" else (None, g or self.drv.last_death)
         if self.backend == "java":
             from vlib import javagen
-            d, reply = javagen.generate(self.drv, text)
-            return ("java_dir", d) if d else (None, reply)
+            reply = javagen.generate(self.drv, text)
+            return ("java_dir", reply["java_dir"]) if reply.get("status") == "ok" else (None, reply)
         raise ValueError(self.backend)
 
     def add_text(self, text, gen=None, origin="generated"):
@@ -87,7 +87,12 @@ class Backend:
 
     def generate(self, stratify=True):
         for t in self.extra_texts:
-            self.add_text(t, origin="corpus")
+            if isinstance(t, tuple):
+                d = self.add_text(t[1], origin="corpus")
+                if d is not None:
+                    d["corpus_id"] = t[0]
+            else:
+                self.add_text(t, origin="corpus")
         if stratify:
             for text, g in GD.stratified(self.rng, self.opts):
                 self.add_text(text, g, origin="stratified")
@@ -169,6 +174,23 @@ class Backend:
                 return {"r": "fail", "at": t, "out": r and r.get("out")}
             v = r["out"][0]["value"]
         return {"r": "ok", "value": v}
+
+    def model_specialize_chain(self, i, root, root_value):
+        """What full parsing with automatic specialization should give in the reference:
+        ("ok", type, value) most derived; ("child-error", type_at, value_at) when a matching child
+        fails to parse (a back end may report an error or fall back to the parent)."""
+        t, v = root, root_value
+        for _ in range(8):
+            r = self.mdl.ask({"op": "inherit", "mode": "ideal", "cases": [{"k": "spec", "type": t, "v": v}]})
+            if not r or r.get("status") != "ok":
+                return ("ok", t, v)
+            o = r["out"][0]
+            if o.get("r") == "err":
+                return ("child-error", t, v)
+            if o.get("r") != "ok" or o.get("child") is None:
+                return ("ok", t, v)
+            t, v = o["child"], o["value"]
+        return ("ok", t, v)
 
     def types(self, i, roots_only=False):
         d = self.descs[i]
